@@ -449,6 +449,11 @@ def h_isgeneratorfunction(I, st, fv, args, kwargs, ctx):
 
 
 def h_binop(I, st, op, a, b, ctx, node):
+    hx = I.lib.get("$binop_first")
+    if hx is not None:
+        r = hx(I, st, op, a, b, ctx, node)
+        if r is not None:
+            return r
     if isinstance(a, Conc) and isinstance(b, Conc):
         try:
             f = {ast.Add: lambda x, y: x + y, ast.Sub: lambda x, y: x - y, ast.Mult: lambda x, y: x * y,
